@@ -23,7 +23,7 @@ self.end_states == d.end_states,
 self.terminal_ids == d.terminal_ids,
 self.lookaheads == d.lookaheads,
 self.patterns == d.patterns,
-cls_functional(match_char_class), cls == cls_of(match_char_class),
+cls_functional(match_char_class, d), cls == cls_of(match_char_class),
 '''
 
 INNER_INV = COMMON_INV + '''
@@ -39,7 +39,7 @@ find_from = Fn(
 requires
     wf(core(*old(self))),
     char_indices.obeys_prophetic_iter_laws(), char_indices.decrease() is Some,
-    cls_functional(match_char_class),
+    cls_functional(match_char_class, core(*old(self))),
     exists|n: int| ci_at(char_indices.remaining(), input@, n),
 ensures
     final(self).states == old(self).states,
@@ -301,7 +301,7 @@ satisfies_lookahead = Fn(
 requires
     wf_flat(core(*old(self).nfa)), old(self).nfa.lookaheads@.len() == 0,
     char_indices.obeys_prophetic_iter_laws(), char_indices.decrease() is Some,
-    cls_functional(match_char_class),
+    cls_functional(match_char_class, core(*old(self).nfa)),
     exists|n: int| ci_at(char_indices.remaining(), input@, n),
 ensures
     forall|n: int| ci_at(char_indices.remaining(), input@, n) ==> {
